@@ -176,6 +176,7 @@ class Scen:
         self.problems = []
         self.links = []
         self.seen = []          # what the handler saw, per request
+        self.second_seen = []   # (Host, X-A) of every arrival of the second request
         self.got = []           # what the caller got
         app = web.Application()
         app.router.add_route("*", "/{tail:.*}", self.handler)
@@ -197,6 +198,8 @@ class Scen:
 
     # ---- server application
     async def handler(self, request):
+        if request.path == "/second":
+            self.second_seen.append((request.headers.get("Host"), request.headers.get("X-A")))
         rec = {"method": request.method, "raw_path": request.raw_path, "path": request.path, "query": list(request.query.items()),
                "headers": [(k, v) for k, v in request.headers.items() if k.upper().startswith("X-")], "cookies": dict(request.cookies),
                "version": tuple(request.version)}
@@ -290,7 +293,10 @@ class Scen:
         self.gate = self.loop.create_future()
         await self.gate
         self.phase = "second"
-        await self.one("GET", "http://svc.test/second", {"headers": {"X-A": "2"}})
+        h2 = {"X-A": "2"}
+        if self.case["req"].get("second_host"):
+            h2["Host"] = self.case["req"]["second_host"]      # a Host header of the caller's own (virtual host behind one address)
+        await self.one("GET", "http://svc.test/second", {"headers": h2})
         self.phase = "done"
 
     async def one(self, method, url, kw):
@@ -354,7 +360,20 @@ class Scen:
         self.gate.set_result(None)
 
     def faults(self):
-        return []
+        f = []
+        if self.phase == "settle" and not self.gate.done() and self.case["req"].get("second_host") and self.links:
+            # in one loop iteration: the server gives up the idle connection (restart, idle timeout) and the client,
+            # which cannot know yet, starts its second request on it
+            def drop_and_go():
+                if self.gate.done():
+                    return
+                ct, st = self.links[0]
+                if not st.is_closing():
+                    st.close()
+                self._second()
+                self.keep = None            # nothing at rest to compare: the server went away on purpose
+            f.append(("server-drops-idle+second-request", drop_and_go))
+        return f
 
     def P(self, sig, msg):
         self.problems.append((f"C02:{sig}", msg + f" | case {self.case['name']}"))
@@ -431,6 +450,11 @@ class Scen:
                 self.P("keepalive-disagreement:client-pools-closed-connection", "the client kept the connection for reuse but the server has closed it")
             if not pooled and server_open and client_open:
                 self.P("keepalive-disagreement:server-waits-client-dropped", "the server keeps the connection open but the client neither pooled nor closed it")
+        want_host = self.case["req"].get("second_host")
+        for host, _xa in self.second_seen:
+            if want_host and host != want_host:
+                self.P("second-request-host-differs", f"the caller's Host header {want_host!r} reached the handler as {host!r} "
+                       f"({len(self.second_seen)} arrival(s) of the second request on {len(self.links)} connection(s))")
         if len(self.got) >= 2:
             g2 = self.got[1]
             if "error" in g2:
@@ -547,6 +571,7 @@ def cases(quick):
             add(f"resp/{kind}-{n}-sockread", {"read_bufsize": 1024, "sock_read": 5}, {"kind": kind, "size": n})
     for st, kind in ((204, "empty"), (304, "empty"), (200, "empty"), (200, "bytes")):
         add(f"resp/{st}-{kind}-sockread", {"sock_read": 5}, {"status": st, "kind": kind, "size": 0 if kind == "bytes" else 13})
+    add("req/second-with-host", {"second_host": "virt.test"}, canon_resp)
     add("req/bytes-3000-sockread", {"method": "POST", "body": "bytes", "size": 3000, "sock_read": 5}, canon_resp)
     return out
 
